@@ -113,6 +113,15 @@ def main():
             else:
                 rv = p.destroy_object(s, hnd[c["k"]])
                 out = dict(rv=rvname(rv))
+        elif op == "scan":
+            # searches whose results nobody looks at, for c["ms"] milliseconds: they overlap a call of another process
+            import time
+            t1 = time.time() + c.get("ms", 15) / 1000.0
+            n = 0
+            while time.time() < t1:
+                p.find(s, [(K.CKA_CLASS, K.CKO_SECRET_KEY)])
+                n += 1
+            out = dict(rv="OK", n=n)
         elif op == "find":
             tpl = [(K.CKA_CLASS, K.CKO_SECRET_KEY)]
             if c.get("v", -1) >= 0:
